@@ -33,7 +33,7 @@ TReset ==
     /\ kr' = R.kr
     /\ lock' = R.lock
     /\ th' = [t \in Threads |-> IdleThread]
-    /\ hist' = [gen |-> {}, handles |-> {}, faults |-> 0]
+    /\ hist' = [gen |-> {}, handles |-> {}, faults |-> 0, created |-> {}]
 
 TBegin == R.op = "Begin" /\ Begin(R.t, R.ctor, R.p, R.key)
 
@@ -69,6 +69,12 @@ TProbe ==
     /\ kr = R.kr
     /\ UNCHANGED vars
 
+\* a watcher thread saw the file with this mode at this point of the log (stamped only if no other event intervened)
+TSight ==
+    /\ R.op = "Sight"
+    /\ R.mode = file[R.p].mode
+    /\ UNCHANGED vars
+
 \* (c) plaintext-at-rest scan lines: observations attached to a scripted history, no model step
 TScan == R.op \in {"Scan", "ScanEnd"} /\ UNCHANGED vars
 
@@ -79,12 +85,13 @@ TraceInit ==
     /\ file = [p \in Paths |-> MissingFile("none")]
     /\ kr = NoKey /\ lock = "free"
     /\ th = [t \in Threads |-> IdleThread]
-    /\ hist = [gen |-> {}, handles |-> {}, faults |-> 0]
+    /\ hist = [gen |-> {}, handles |-> {}, faults |-> 0, created |-> {}]
     /\ TLCSet(1, 2)
+    /\ TLCSet(2, 0)
 
 TraceNext ==
     \/ /\ l <= Len(Rec)
-       /\ (TReset \/ TBegin \/ TGet \/ TSet \/ TEnd \/ TWrite \/ TClose \/ TProbe \/ TScan)
+       /\ (TReset \/ TBegin \/ TGet \/ TSet \/ TEnd \/ TWrite \/ TClose \/ TProbe \/ TScan \/ TSight)
        /\ l' = l + 1
        /\ Seen(l + 1)
     \/ /\ l <= Len(Rec)
@@ -95,7 +102,7 @@ TraceSpec == TraceInit /\ [][TraceNext]_tvars
 
 \* property invariants evaluated on every state of every explanation of the real trace
 InvC13 == /\ KeyCreatedOnce /\ OpensUseKeyringKey /\ WrongKeyNeverOpens
-          /\ ExistingFileNeverGeneratesKey /\ PermsOwnerOnly /\ MatrixAgrees
+          /\ ExistingFileNeverGeneratesKey /\ PermsOwnerOnly /\ MatrixAgrees /\ PermsNeverLoose
 
 \* scan invariant on the line just consumed: nothing sensitive in any file of the database directory, all files
 \* owner-only, data readable after reopen; on the unencrypted control database the scanner must find every canary kind
@@ -108,7 +115,11 @@ InvScan ==
            /\ (x.step = "reopened") => x.res = "DataReadable"
            /\ (x.mode = "keyring") => x.leaks = <<>>
       /\ (x.op = "ScanEnd" /\ x.mode = "keyring") => x.transient_leaks = <<>>
-      /\ (x.op = "ScanEnd") => x.transient_loose = <<>>          \* no file ever seen group/world accessible
+      \* no file ever seen group/world accessible (excused: the database file itself, finding PrecreateNotAtomic)
+      /\ (x.op = "ScanEnd") =>
+           \/ x.transient_loose = <<>>
+           \/ /\ "PrecreateNotAtomic" \in Dev /\ Rng(x.transient_loose) = {"mdk.db (loose)"}
+              /\ PrintT(<<"KNOWN-FINDING", "C13", "PrecreateNotAtomic">>)
       /\ (x.op = "ScanEnd" /\ x.mode = "unenc") => Rng(x.kinds) \subseteq Rng(x.found_kinds)
 
 \* acceptance: some explanation consumed every line
